@@ -88,6 +88,22 @@ theorem upperF_wmF_perm {rows rows' : List (List α)} (h : List.Forall₂ List.P
     | nil => rfl
     | cons hcd _ ih2 => simp [ih2, wmF_perm hab hcd]
 
+theorem forall₂_perm_length {rows rows' : List (List α)} (hp : List.Forall₂ List.Perm rows rows') (m : ℕ)
+    (h : ∀ e ∈ rows, e.length = m) : ∀ e ∈ rows', e.length = m := by
+  induction hp with
+  | nil => intro e he; simp at he
+  | cons hab _ ih =>
+    intro e he
+    rcases List.mem_cons.mp he with h1 | h1
+    · rw [h1, ← hab.length_eq]; exact h _ (by simp)
+    · exact ih (fun e' he' => h e' (by simp [he'])) e h1
+
+theorem forall₂_perm_ne_nil {rows rows' : List (List α)} (hp : List.Forall₂ List.Perm rows rows')
+    (h : rows ≠ []) : rows' ≠ [] := by
+  cases hp with
+  | nil => exact absurd rfl h
+  | cons _ _ => simp
+
 /-! ### index-free form of the ranks: rank = ½ + Σ_k u(i, k), the mid-rank among the ensembles -/
 
 theorem map_fst_zipIdx {β γ : Type} (g : β → γ) (l : List β) (k : ℕ) :
